@@ -148,14 +148,71 @@ def playback(harness, timeout=900):
 class KaniSpec:
     level = 'model_checking'
 
-    def __init__(s, filt, text, known_harness=None):
+    def __init__(s, filt, text, known_harness=None, text_tasks=None):
+        s.text_tasks = text_tasks
         s.filt = filt
         s.text = text
         s.known_harness = known_harness
 
     def replay(s, path):
+        v = json.load(open(path))
+        if 'job' in v and v['job'].get('text'):
+            from . import ptext as PT
+            b = H.build_drv('dev-like')
+            lines, crashed, stderr = H.native_replay(b['replay'], v['job'])
+            out, info = PT.judge_text(v['job'], lines, crashed, stderr)
+            print(json.dumps({'reproduces': bool(out), 'what': out}, indent=1))
+            return 1 if out else 0
         print(open(path).read()[:4000])
         return 0
+
+    def run_text(s, prop, tier, seed, args, ev):
+        """the part of the property Kani cannot reach (formatting), on engine S with the build-std IR"""
+        from . import ptext as PT
+        b = H.build_drv('dev-like')
+        tb = PT.build_bs()
+        tasks = s.text_tasks(tier)
+        results = H.run_tasks(tb['ll'], tasks, jobs=args.jobs, seed=seed)
+        lines = []
+        rc = 0
+        seen = set()
+        nrep = 0
+        for r in results:
+            for v in r['violations']:
+                jid = json.dumps(v['job'], sort_keys=True)
+                if jid in seen:
+                    continue
+                seen.add(jid)
+                out, crashed, stderr = H.native_replay(b['replay'], v['job'])
+                what, _ = PT.judge_text(v['job'], out, crashed, stderr)
+                nrep += 1
+                rec = dict(property=prop, task=r['name'], clauses=v['clauses'], job=v['job'], native=what)
+                if what:
+                    if rc != 1:
+                        pth = H.write_replay(prop, rec)
+                        lines.append("VIOLATION property=%s replay=%s" % (prop, pth))
+                        lines.append("   %s: %s" % (v['clauses'][0], what[0][:300]))
+                    rc = 1
+                elif rc == 0:
+                    pth = H.write_replay(prop + '-unreproduced', rec)
+                    lines.append("INCONCLUSIVE: solver counterexample did not reproduce natively (%s): %s" % (r['name'], pth))
+                    rc = 2
+            if r['status'] == 'inconclusive' and rc == 0:
+                lines.append("INCONCLUSIVE: %s: %s" % (r['name'], (r.get('error') or '')[:300]))
+                rc = 2
+        cov = ev['coverage']
+        cov['engine_S_print_parse'] = dict(
+            what="from_str(print(h)) == h executed on the LLVM IR of Hex::print / Hex::from_str with core::fmt, alloc and the hex crate (-Zbuild-std): "
+                 "ALL byte strings of the listed lengths, every byte symbolic, inline representation with arbitrary padding and heap representation",
+            obligations=[dict(name=r['name'], status=r['status'], symbolic_paths=r['paths'], solver_queries=r['queries'], solver_s=round(r['solver_s'], 2),
+                              wall_s=round(r['wall_s'], 2)) for r in results],
+            symbolic_paths=sum(r['paths'] for r in results), solver_queries=sum(r['queries'] for r in results),
+            native_replays=nrep, ir_files=[os.path.basename(p) for p in tb['ll']], build_s=round(tb['seconds'], 1),
+            stubs=sorted({e for r in results for e in r.get('externs', [])})[:30])
+        cov['evaluations'] += len(results)
+        cov['distinct_nontrivial'] += sum(1 for r in results if r['status'] == 'ok')
+        cov['samples'] += [x for r in results for x in r['samples']][:4]
+        return rc, lines
 
     def run(s, prop, tier, seed, args, t0):
         out, secs, cmd = run_kani(s.filt)
@@ -229,7 +286,19 @@ class KaniSpec:
             'wall_s': round(time.time() - t0, 2),
             'violations': len(viol),
         }
+        if s.text_tasks:
+            rc2, vlines = s.run_text(prop, tier, seed, args, ev)
+            viol_extra = vlines
+            rc = max(rc, rc2) if rc != 1 else 1
+            if rc2 == 1:
+                rc = 1
+        else:
+            viol_extra = []
+        ev['violations'] = len(viol) + sum(1 for l in viol_extra if l.startswith('VIOLATION'))
+        ev['wall_s'] = round(time.time() - t0, 2)
         H.write_evidence(prop, ev)
+        for l in viol_extra:
+            print(l)
         if kf_line:
             print(kf_line)
         for name, why, p in viol:
